@@ -1367,13 +1367,40 @@ func (t *XT) coqStyle() (string, bool) {
 		}
 		return "", false
 	case "map":
-		// css maps only: string / int values, no table formats, no plainList key
+		// css entries with string / int values, no plainList key; the key table holds the table format map
 		var parts []string
+		tab := ""
 		for i, k := range t.Keys {
-			if k == "table" || k == "plainList" {
+			it := t.Items[i]
+			if k == "plainList" {
 				return "", false
 			}
-			it := t.Items[i]
+			if k == "table" {
+				if it.Kind != "map" {
+					return "", false
+				}
+				var tf []string
+				for j, fk := range it.Keys {
+					fv := it.Items[j]
+					if fv.Kind == "map" {
+						for _, kk := range fv.Keys {
+							if kk == "table" {
+								return "", false
+							}
+						}
+					}
+					if fv.Kind != "str" && fv.Kind != "map" && !(fv.Kind == "closure" && fv.S == failingClosure) {
+						return "", false
+					}
+					st, ok := fv.coqStyle()
+					if !ok {
+						return "", false
+					}
+					tf = append(tf, "("+CoqStr(fk)+", "+st+")")
+				}
+				tab = CoqList(tf)
+				continue
+			}
 			switch it.Kind {
 			case "str":
 				parts = append(parts, "("+CoqStr(k)+", "+CoqStr(it.S)+")")
@@ -1382,6 +1409,9 @@ func (t *XT) coqStyle() (string, bool) {
 			default:
 				return "", false
 			}
+		}
+		if tab != "" {
+			return "STab " + CoqList(parts) + " " + tab, true
 		}
 		return "SMap " + CoqList(parts), true
 	}
@@ -1734,6 +1764,26 @@ func cmdC18(seed int64, tier, outDir string) {
 			conc = 2 + r.Pick(3)
 		}
 		c18RunHistory(r.genC18History(html, h%4), conc, &id, sum, cw)
+	}
+	// additive corpus (kept behind everything else so that the ids and the random stream of the cases above do not
+	// move): table formats rNcM / rN / cN / all with constant styles and a failing closure, File values in cells
+	tfm := func(kv ...any) *XT { m := xm(kv...); return m }
+	tbl := xl(xl(xs("a<1"), xs("b"), xs("c")), xl(xs("d"), xfmt(xs("own"), xs("e&")), xs("f")), xs("lonely"), xl(xs("g")))
+	file := &XT{Kind: "file", S: "n\".txt", Mime: "", Data: []byte("0123456789")}
+	for _, st := range []*XT{
+		tfm("color", xs("red"), "table", tfm("r1c1", xs("a:\"1\""), "r2", xs("row2"), "c2", tfm("font_weight", xs("bold")), "all", xs("<all>"))),
+		tfm("table", tfm("all", &XT{Kind: "closure", S: failingClosure}, "r1", xs("x"))),
+		tfm("table", tfm("r3c1", xs("single")), "width", xi(3)),
+		tfm("table", tfm()),
+	} {
+		for _, max := range []int{1, 2, 3} {
+			for _, inline := range []bool{true, false} {
+				id++
+				c18HTMLCase(&htmlCase{Tree: xfmt(st, tbl), MaxList: max, Inline: inline}, id, sum, cw)
+			}
+		}
+		id++
+		c18HTMLCase(&htmlCase{Tree: xfmt(st, xlink("u", xl(xl(file, xs("x")), xl(xi(1), xl(xs("in")))))), MaxList: 3, Inline: true}, id, sum, cw)
 	}
 	cw.Flush()
 	sum.CaseFiles = cw.files
